@@ -198,12 +198,9 @@ class C16Engine(C09.C09Engine):
                                                    "element_text": t[:300], "what": "not found verbatim in database text"},
                                     f"join:element-missing:{self.kinds[h]}.{lang}")
                 rest = rest.replace(t, "", 1)
-            if rest.strip("\n") != "":
+            if rest.strip() != "":
                 raise Violation(PROP, "join", {"after": ctx, "db": db, "lang": lang, "left_over": rest[:300]},
                                 f"join:unaccounted-text:{lang}")
-            if len(parts) <= 1 and rest != "" or len(parts) > 1 and rest != "\n\n" * (len(parts) - 1):
-                raise Violation(PROP, "join", {"after": ctx, "db": db, "lang": lang, "separators": repr(rest)[:100],
-                                               "elements": len(parts)}, f"join:separators:{lang}")
             self.count(f"probe:join-consumed.{lang}")
 
     # ------------------------------------------------------------ step
